@@ -110,7 +110,7 @@ func (s *seqState) saveLoad(w *simrt.World, sc *SeqCase) {
 	tr := NewRunner(w, &tcfg)
 	if pl.ReadAdv > 0 {
 		// a slow stream: the clock moves while LoadCacheFrom reads, so "load time" is an interval
-		st.onRead = func() { r.Advance(pl.ReadAdv) }
+		st.onRead = func() { r.fault("stream-read-takes-time"); r.Advance(pl.ReadAdv) }
 	}
 	if err := otter.LoadCacheFrom(tr.C, st); err != nil {
 		m.fail(props, "load.error", -1, "LoadCacheFrom failed on a healthy stream: %v", err)
